@@ -32,8 +32,19 @@ partial def expr? : Sexp → Option Expr
   | .list [.atom "LEN", a] => do let a ← expr? a; pure (.len a)
   | s => do let a ← atom? s; pure (.lit (.atom a))
 
+/-- an argument of a call: an expression, or `(KW name expr)` -/
+def arg? : Sexp → Option Arg
+  | .list [.atom "KW", .str k, e] => do let e ← expr? e; pure (some k, e)
+  | s => do let e ← expr? s; pure (none, e)
+
+/-- a parameter of a macro: a name, or `(DF name default)` -/
+def param? : Sexp → Option Param
+  | .list [.atom "DF", .str n, e] => do let e ← expr? e; pure (n, some e)
+  | .str n => some (n, none)
+  | _ => none
+
 def xexpr? : Sexp → Option XExpr
-  | .list [.atom "CALL", f, .list args] => do let f ← expr? f; let as ← args.mapM expr?; pure (.call f as)
+  | .list [.atom "CALL", f, .list args] => do let f ← expr? f; let as ← args.mapM arg?; pure (.call f as)
   | s => do let e ← expr? s; pure (.pure e)
 
 def optExpr? : Sexp → Option (Option Expr)
@@ -41,7 +52,7 @@ def optExpr? : Sexp → Option (Option Expr)
   | s => do let e ← expr? s; pure (some e)
 
 def dir? : Sexp → Option Dir
-  | .list [.atom "Def", .str f, .list ps] => do let ps ← ps.mapM Sexp.toStr?; pure (.def_ f ps)
+  | .list [.atom "Def", .str f, .list ps] => do let ps ← ps.mapM param?; pure (.def_ f ps)
   | .list [.atom "When", e] => do let e ← optExpr? e; pure (.when e)
   | .list [.atom "Otherwise"] => some .otherwise
   | .list [.atom "For", .str v, e] => do let e ← expr? e; pure (.for_ v e)
@@ -128,14 +139,18 @@ partial def exprS : Expr → Sexp
 
 def xexprS : XExpr → Sexp
   | .pure e => exprS e
-  | .call f args => .list [.atom "CALL", exprS f, .list (args.map exprS)]
+  | .call f args => .list [.atom "CALL", exprS f, .list (args.map fun
+      | (none, e) => exprS e
+      | (some k, e) => .list [.atom "KW", .str k, exprS e])]
 
 def optS : Option Expr → Sexp
   | none => .atom "NONE"
   | some e => exprS e
 
 def dirS : Dir → Sexp
-  | .def_ f ps => .list [.atom "Def", .str f, .list (ps.map .str)]
+  | .def_ f ps => .list [.atom "Def", .str f, .list (ps.map fun
+      | (n, none) => .str n
+      | (n, some e) => .list [.atom "DF", .str n, exprS e])]
   | .when e => .list [.atom "When", optS e]
   | .otherwise => .list [.atom "Otherwise"]
   | .for_ v e => .list [.atom "For", .str v, exprS e]
